@@ -38,7 +38,7 @@ func c14Gen(t *rapid.T) c14Case {
 	n := int(p.Epoch)*epochs + rapid.IntRange(1, 2).Draw(t, "tail")
 	c := c14Case{Tree: ck.TreeDesc{Params: p}}
 	for i := 0; i < n; i++ {
-		bd := ck.BlockDesc{Parent: i, Skip: rapid.IntRange(0, 3).Draw(t, "skip")}
+		bd := ck.BlockDesc{Parent: i, Skip: rapid.IntRange(0, 3).Draw(t, "skip"), Jitter: rapid.SampledFrom([]int{0, 0, 0, 1, 500, 999}).Draw(t, "jitter")}
 		ntx := rapid.IntRange(0, 3).Draw(t, "ntx")
 		for k := 0; k < ntx; k++ {
 			switch rapid.IntRange(0, 9).Draw(t, "txk") {
